@@ -102,7 +102,7 @@ def run(chk, args):
         if not g2["ok"]:
             raise vlib.Machinery("HistoryGen (few objects) failed: %s\n%s" % (g2["error"], g2["out"][-1500:]))
         hs += vlib.one_per_trace(vlib.parse_printed(g2["out"], "BEHAVIOUR"), prng)[:n2]
-        n3 = 80 if thorough else 8
+        n3 = 80 if thorough else 12
         g3 = vlib.tlc("HistoryGen", "HistoryGenWrap.cfg", workers=1, simulate="num=%d" % n3, depth=35,
                       seed=chk.seed + 13, timeout=900)
         if not g3["ok"]:
